@@ -110,7 +110,7 @@ fn finish(jobs: &[(String, bool)], classes: Vec<String>, cx: &Cx) -> CaseResult 
     // every job alone, each in its own fresh process
     let alone: Vec<Result<String, String>> = jobs.iter().enumerate().map(|(i, (s, sc))| solo(s, *sc, hash ^ (i as u64 + 1))).collect();
     // all jobs together, in fresh processes (a replay tries harder: the race is not ours to steer)
-    let attempts = if cx.strict { 8 } else { 2 };
+    let attempts = if cx.strict { 24 } else { 2 };
     let mut bad: Option<(usize, String, Result<String, String>)> = None;
     let mut seen = 0u32;
     for a in 0..attempts {
@@ -120,7 +120,11 @@ fn finish(jobs: &[(String, bool)], classes: Vec<String>, cx: &Cx) -> CaseResult 
                 if let Some(i) = differs(&alone, &r) {
                     seen += 1;
                     if bad.is_none() {
-                        bad = Some((i, format!("job {i}: alone {:?}, concurrently {:?}", short(&alone[i]), short(&r[i])), r[i].clone()));
+                        let parts = match (&alone[i], &r[i]) {
+                            (Ok(a), Ok(b)) => a.split(';').zip(b.split(';')).filter(|(x, y)| x != y).map(|(x, _)| x.split(':').next().unwrap_or("").to_string()).collect::<Vec<_>>().join(","),
+                            _ => String::new(),
+                        };
+                        bad = Some((i, format!("job {i}: alone {:?}, concurrently {:?} (differing artefacts: {parts})", short(&alone[i]), short(&r[i])), r[i].clone()));
                     }
                 }
             }
@@ -134,9 +138,11 @@ fn finish(jobs: &[(String, bool)], classes: Vec<String>, cx: &Cx) -> CaseResult 
         if alone2 != alone {
             return CaseResult::discard("solo-result-not-deterministic");
         }
-        // a verdict needs a second observation: up to 10 more concurrent runs
+        // a verdict needs three observations: up to 20 more concurrent runs (on the unchanged tree a
+        // difference was once seen twice in 12 runs under heavy machine load and never again in 300
+        // runs of the same jobs; such a sighting is counted, not reported)
         let mut more = 0;
-        while seen < 2 && more < 10 {
+        while seen < 3 && more < 20 {
             if let Ok(r2) = together(jobs, hash ^ (0x200 + more as u64)) {
                 if differs(&alone, &r2).is_some() {
                     seen += 1;
@@ -144,7 +150,7 @@ fn finish(jobs: &[(String, bool)], classes: Vec<String>, cx: &Cx) -> CaseResult 
             }
             more += 1;
         }
-        if seen >= 2 {
+        if seen >= 3 {
             let kind = match (&alone[i], &got) {
                 (_, Err(e)) if e.contains("poison") => "poisoned-lock",
                 (_, Err(_)) => "panic-only-when-concurrent",
@@ -277,11 +283,11 @@ impl Prop for C19 {
         out
     }
     fn rule(&self) -> String {
-        "Cases are sets of K=2..6 jobs; a job compiles a source for both backends and runs 8 samples on both runtimes (artefacts: bytecode listing, WASM bytes, state layouts, I/O channels, outputs; diagnostics or a panic signature for failing programs). Sources: generated programs, shipped sources (incl. programs with macros, which set the process environment variable, and modules), exact duplicates, near-duplicates differing in one literal, and broken texts. Sources also include programs over user sum types (half of them with a match that misses several constructors, so that the diagnostic lists names) and a program that mentions the identifiers of another job in a shuffled order. The compared artefacts include the diagnostic messages of refused programs. Each job is first run alone in its own fresh child process; then all jobs are started together on K OS threads behind a barrier in a fresh child process that has compiled nothing before (2 such processes per case). Oracle: every job's artefacts equal its solo artefacts; no panic that does not also occur alone. A difference is reported when it is seen in at least two concurrent runs (up to 10 further runs are made) and the solo artefacts are stable; otherwise it is counted as flaky-inconclusive. Non-trivial = at least two jobs that compile.".into()
+        "Cases are sets of K=2..6 jobs; a job compiles a source for both backends and runs 8 samples on both runtimes (artefacts: bytecode listing, WASM bytes, state layouts, I/O channels, outputs; diagnostics or a panic signature for failing programs). Sources: generated programs, shipped sources (incl. programs with macros, which set the process environment variable, and modules), exact duplicates, near-duplicates differing in one literal, and broken texts. Sources also include programs over user sum types (half of them with a match that misses several constructors, so that the diagnostic lists names) and a program that mentions the identifiers of another job in a shuffled order. The compared artefacts include the diagnostic messages of refused programs. Each job is first run alone in its own fresh child process; then all jobs are started together on K OS threads behind a barrier in a fresh child process that has compiled nothing before (2 such processes per case). Oracle: every job's artefacts equal its solo artefacts; no panic that does not also occur alone. A difference is reported when it is seen in at least three concurrent runs (up to 20 further runs are made) and the solo artefacts are stable; otherwise it is counted as flaky-inconclusive. Non-trivial = at least two jobs that compile.".into()
     }
     fn assumptions(&self) -> Vec<String> {
         vec![
-            "interleavings are whatever the OS scheduler produces on this machine: the harness does not own the schedule, so a rare interleaving can be missed and a difference seen only once in 12 concurrent runs is not reported".into(),
+            "interleavings are whatever the OS scheduler produces on this machine: the harness does not own the schedule, so a rare interleaving can be missed and a difference seen fewer than three times in 22 concurrent runs is not reported".into(),
             "deadlocks would show as a case hitting the 300 s limit, which this property treats as inconclusive".into(),
         ]
     }
